@@ -92,8 +92,8 @@ func (w *worker) kill() {
 }
 
 // call returns the outcome and whether the worker is still usable
-func (w *worker) call(d *Doc) (Outcome, bool) {
-	b, _ := json.Marshal(d)
+func (w *worker) call(d *Doc, ms int) (Outcome, bool) {
+	b, _ := json.Marshal(workerIn{D: d, Ms: ms})
 	w.in.Write(b)
 	w.in.WriteByte('\n')
 	if err := w.in.Flush(); err != nil {
@@ -103,6 +103,10 @@ func (w *worker) call(d *Doc) (Outcome, bool) {
 	type rd struct {
 		line string
 		err  error
+	}
+	watchdog := parentTimeout
+	if ms > 0 {
+		watchdog = time.Duration(ms)*time.Millisecond + (parentTimeout - workerTimeout)
 	}
 	ch := make(chan rd, 1)
 	go func() {
@@ -120,7 +124,7 @@ func (w *worker) call(d *Doc) (Outcome, bool) {
 			return Outcome{Status: "fatal", Site: "fatal:bad-worker-output", Msg: truncate(r.line, 200)}, false
 		}
 		return o, !o.Exit
-	case <-time.After(parentTimeout):
+	case <-time.After(watchdog):
 		return Outcome{Status: "hang", Site: "hang@watchdog", Msg: "worker silent; killed by the parent watchdog"}, false
 	}
 }
@@ -173,12 +177,15 @@ func NewPool(par int) *Pool {
 }
 
 // Run renders one document in some worker (blocking until one is free)
-func (p *Pool) Run(d *Doc) Outcome {
+func (p *Pool) Run(d *Doc) Outcome { return p.RunT(d, 0) }
+
+// RunT: ms > 0 overrides the in-process hang timeout (used while shrinking hangs)
+func (p *Pool) RunT(d *Doc, ms int) Outcome {
 	w := <-p.idle
 	if w == nil {
 		w = startWorker()
 	}
-	o, ok := w.call(d)
+	o, ok := w.call(d, ms)
 	if !ok {
 		w.kill()
 		w = nil
